@@ -1,11 +1,267 @@
 import Driver.Util
-/-! Driver for the `BrokerClient` component (stub until the component is built). -/
-namespace Driver.BrokerClient
+import Afkak.Frame
+import Afkak.BrokerClient
+import Afkak.Bootstrap
+import Afkak.Monitor.C06
+import Afkak.Monitor.C10
+/-!
+Driver for the `brokerclient` component (exe `model_brokerclient`).
 
-def step (st : Unit) (_line : String) : Unit × List String := (st, ["bad-op"])
+Requests (one per line; the answer is zero or more lines, then `.`):
+
+* framing        `fr-new` · `fr-feed <hex>` → `frame <hex>`…, `exceeded`?, `buffered <n>`
+* broker client  `bc-new <host> <port> <policy>` (policy: comma-separated rationals, the last one
+                 repeats) · `make <id> <0|1>` · `cancel <id>` · `connOk` · `connFail` ·
+                 `advance <rat>` · `bytes <hex>` · `lost` · `close` · `disconnect` ·
+                 `meta <host> <port>` · `wfail <0|1>` → observation lines · `bc-state` → a dump
+* bootstrap      `bs-new` · `bs-request <hex>` · `bs-cancel <serial>` · `bs-bytes <hex>` · `bs-lost`
+* monitors on a RECORDED trace (events and observations as the harness logged them on the real
+  objects): `t-new <host> <port> <policy>` · `t-ev <event line>` (starts a step) · `t-ob <observation
+  line>` (adds to the current step) · `mon-c06` / `mon-c10` → `ok` | `fail <index of the first
+  violating step>`; `bt-new` · `bt-ev …` · `bt-ob …` · `mon-boot <0|1 strict>` likewise for a
+  bootstrap connection.  `mon-model-c06` / `mon-model-c10` / `mon-model-boot <strict>` evaluate the
+  same monitors on the MODEL's own trace since the last `bc-new` / `bs-new`.
+-/
+namespace Driver.BrokerClient
+open Driver Afkak.Frame
+
+namespace BC
+open Afkak.BrokerClient
+
+def showRat (q : Rat) : String := if q.den == 1 then s!"{q.num}" else s!"{q.num}/{q.den}"
+
+def parseRat (s : String) : Option Rat :=
+  match s.splitOn "/" with
+  | [n] => n.toInt?.map (fun i => (i : Rat))
+  | [n, d] => match n.toInt?, d.toNat? with
+    | some i, some k => if k == 0 then none else some ((i : Rat) / (k : Rat))
+    | _, _ => none
+  | _ => none
+
+def parseRats (s : String) : Option (List Rat) :=
+  if s == "-" then some [] else (s.splitOn ",").mapM parseRat
+
+/-- `policy(failures)`, `failures ≥ 1`: the table, its last entry repeating. -/
+def policyOf (tbl : List Rat) (n : Nat) : Rat :=
+  match tbl[n - 1]? with
+  | some q => q
+  | none => match tbl.getLast? with
+    | some q => q
+    | none => 0
+
+def showKind : ErrKind → String
+  | .cancelled => "cancelled"
+  | .clientError => "clientError"
+  | .writeError => "writeError"
+
+def showRes : Res → String
+  | .ok b => s!"ok {toHex b}"
+  | .none => "none"
+  | .err k => s!"err {showKind k}"
+
+def showOb : Ob → String
+  | .connect h p => s!"connect {h} {p}"
+  | .setTimer d => s!"setTimer {showRat d}"
+  | .cancelTimer => "cancelTimer"
+  | .cancelConnect => "cancelConnect"
+  | .write c k i => s!"write {c} {k} {i}"
+  | .writeLost c k i => s!"writeLost {c} {k} {i}"
+  | .lose c => s!"lose {c}"
+  | .fire k i r => s!"fire {k} {i} {showRes r}"
+  | .down => "down"
+  | .raiseDup i => s!"raise dup {i}"
+  | .raiseAssert => "raise assert"
+  | .raiseUnderflow => "raise underflow"
+  | .unexpected i => s!"unexpected {i}"
+  | .badOp => "badOp"
+
+def parseKind : String → Option ErrKind
+  | "cancelled" => some .cancelled
+  | "clientError" => some .clientError
+  | "writeError" => some .writeError
+  | _ => none
+
+def parseOb : List String → Option Ob
+  | ["connect", h, p] => do some (.connect (← h.toNat?) (← p.toNat?))
+  | ["setTimer", d] => do some (.setTimer (← parseRat d))
+  | ["cancelTimer"] => some .cancelTimer
+  | ["cancelConnect"] => some .cancelConnect
+  | ["write", c, k, i] => do some (.write (← c.toNat?) (← k.toNat?) (← i.toInt?))
+  | ["writeLost", c, k, i] => do some (.writeLost (← c.toNat?) (← k.toNat?) (← i.toInt?))
+  | ["lose", c] => do some (.lose (← c.toNat?))
+  | ["fire", k, i, "ok", h] => do some (.fire (← k.toNat?) (← i.toInt?) (.ok (← parseHex h)))
+  | ["fire", k, i, "none"] => do some (.fire (← k.toNat?) (← i.toInt?) .none)
+  | ["fire", k, i, "err", e] => do some (.fire (← k.toNat?) (← i.toInt?) (.err (← parseKind e)))
+  | ["down"] => some .down
+  | ["raise", "dup", i] => do some (.raiseDup (← i.toInt?))
+  | ["raise", "assert"] => some .raiseAssert
+  | ["raise", "underflow"] => some .raiseUnderflow
+  | ["unexpected", i] => do some (.unexpected (← i.toInt?))
+  | ["badOp"] => some .badOp
+  | _ => none
+
+def parseBool (s : String) : Option Bool :=
+  if s == "1" then some true else if s == "0" then some false else none
+
+def parseEv : List String → Option Ev
+  | ["make", i, e] => do some (.make (← i.toInt?) (← parseBool e))
+  | ["cancel", i] => do some (.cancel (← i.toInt?))
+  | ["connOk"] => some .connOk
+  | ["connFail"] => some .connFail
+  | ["advance", q] => do some (.advance (← parseRat q))
+  | ["bytes", h] => do some (.bytesIn (← parseHex h))
+  | ["lost"] => some .lost
+  | ["close"] => some .close
+  | ["disconnect"] => some .disconnect
+  | ["meta", h, p] => do some (.updateMetadata (← h.toNat?) (← p.toNat?))
+  | ["wfail", b] => do some (.writeFail (← parseBool b))
+  | _ => none
+
+def showReq (r : Req) : String :=
+  s!"{r.serial}:{r.id}:{if r.expect then 1 else 0}{if r.sent then 1 else 0}{if r.cancelled then 1 else 0}"
+
+def showConnector : Connector → String
+  | .none => "none"
+  | .attempt => "attempt"
+  | .backoff d => s!"backoff@{showRat d}"
+  | .stale => "stale"
+
+def showSt (s : St) : String :=
+  let p := match s.proto with | some c => s!"{c}" | none => "-"
+  s!"state host={s.host} port={s.port} proto={p} losing={s.losing} rbuf={s.rbuf.length} connector={showConnector s.connector} closed={s.closed} failures={s.failures} now={showRat s.now} nconn={s.nconn} nmake={s.nmake} wfail={s.wfail} reqs=[{" ".intercalate (s.reqs.map showReq)}]"
+
+end BC
+
+namespace BS
+open Afkak.Bootstrap
+
+def showRes : Res → String
+  | .ok b => s!"ok {toHex b}"
+  | .connLost => "err connLost"
+  | .cancelled => "err cancelled"
+
+def showOb : Ob → String
+  | .write k => s!"write {k}"
+  | .writeLost k => s!"writeLost {k}"
+  | .lose => "lose"
+  | .fire k r => s!"fire {k} {showRes r}"
+  | .raiseAssert => "raise assert"
+  | .badOp => "badOp"
+
+def parseEv : List String → Option Ev
+  | ["bs-request", h] => do some (.request (← parseHex h))
+  | ["bs-cancel", k] => do some (.cancel (← k.toNat?))
+  | ["bs-bytes", h] => do some (.bytesIn (← parseHex h))
+  | ["bs-lost"] => some .lost
+  | _ => none
+
+def parseOb : List String → Option Ob
+  | ["write", k] => do some (.write (← k.toNat?))
+  | ["writeLost", k] => do some (.writeLost (← k.toNat?))
+  | ["lose"] => some .lose
+  | ["fire", k, "ok", h] => do some (.fire (← k.toNat?) (.ok (← parseHex h)))
+  | ["fire", k, "err", "connLost"] => do some (.fire (← k.toNat?) .connLost)
+  | ["fire", k, "err", "cancelled"] => do some (.fire (← k.toNat?) .cancelled)
+  | ["raise", "assert"] => some .raiseAssert
+  | ["badOp"] => some .badOp
+  | _ => none
+
+end BS
+
+structure DSt where
+  policy : List Rat := []
+  host : Nat := 0
+  port : Nat := 0
+  bc : Afkak.BrokerClient.St := Afkak.BrokerClient.St.init 0 0
+  /-- the model's own trace since `bc-new`, newest first -/
+  bcTr : List (Afkak.BrokerClient.Ev × List Afkak.BrokerClient.Ob) := []
+  frBuf : Bytes := []
+  bs : Afkak.Bootstrap.St := Afkak.Bootstrap.St.init
+  bsTr : List (Afkak.Bootstrap.Ev × List Afkak.Bootstrap.Ob) := []
+  /-- recorded trace (newest first; observations of a step newest first) and its header -/
+  tPolicy : List Rat := []
+  tHost : Nat := 0
+  tPort : Nat := 0
+  tr : List (Afkak.BrokerClient.Ev × List Afkak.BrokerClient.Ob) := []
+  btr : List (Afkak.Bootstrap.Ev × List Afkak.Bootstrap.Ob) := []
+  /-- a `t-ev`/`t-ob`/`bt-…` line did not parse: the monitors answer `bad-op` -/
+  tBad : Bool := false
+
+def verdict : Option Nat → List String
+  | none => ["ok"]
+  | some n => [s!"fail {n}"]
+
+def bootFirstBad (strict : Bool) (m : Afkak.Monitor.C06.BSt) (n : Nat) :
+    List (Afkak.Bootstrap.Ev × List Afkak.Bootstrap.Ob) → Option Nat
+  | [] => none
+  | t :: ts => match Afkak.Monitor.C06.bstep strict m t with
+    | none => some n
+    | some m' => bootFirstBad strict m' (n + 1) ts
+
+def fixTr {ε ω : Type} (tr : List (ε × List ω)) : List (ε × List ω) :=
+  tr.reverse.map (fun t => (t.1, t.2.reverse))
+
+def bsStep (st : DSt) (e : Afkak.Bootstrap.Ev) : DSt × List String :=
+  let r := Afkak.Bootstrap.step st.bs e
+  ({ st with bs := r.1, bsTr := (e, r.2) :: st.bsTr }, r.2.map BS.showOb)
+
+def step (st : DSt) (line : String) : DSt × List String :=
+  match words line with
+  | ["fr-new"] => ({ st with frBuf := [] }, ["ok"])
+  | ["fr-feed", h] => match parseHex h with
+    | some chunk =>
+      let f := feed st.frBuf chunk
+      ({ st with frBuf := f.buf },
+       f.frames.map (fun b => s!"frame {toHex b}") ++ (if f.exceeded then ["exceeded"] else []) ++ [s!"buffered {f.buf.length}"])
+    | none => (st, ["bad-op"])
+  | ["bc-new", h, p, pol] => match h.toNat?, p.toNat?, BC.parseRats pol with
+    | some h, some p, some pol =>
+      ({ st with policy := pol, host := h, port := p, bc := Afkak.BrokerClient.St.init h p, bcTr := [] }, ["ok"])
+    | _, _, _ => (st, ["bad-op"])
+  | ["bc-state"] => (st, [BC.showSt st.bc])
+  | ["bs-new"] => ({ st with bs := Afkak.Bootstrap.St.init, bsTr := [] }, ["ok"])
+  | "bs-request" :: _ | "bs-cancel" :: _ | "bs-bytes" :: _ | ["bs-lost"] => match BS.parseEv (words line) with
+    | some e => bsStep st e
+    | none => (st, ["bad-op"])
+  | ["t-new", h, p, pol] => match h.toNat?, p.toNat?, BC.parseRats pol with
+    | some h, some p, some pol => ({ st with tPolicy := pol, tHost := h, tPort := p, tr := [], tBad := false }, ["ok"])
+    | _, _, _ => (st, ["bad-op"])
+  | "t-ev" :: ws => match BC.parseEv ws with
+    | some e => ({ st with tr := (e, []) :: st.tr }, [])
+    | none => ({ st with tBad := true }, ["bad-op"])
+  | "t-ob" :: ws => match BC.parseOb ws, st.tr with
+    | some o, (e, os) :: rest => ({ st with tr := (e, o :: os) :: rest }, [])
+    | _, _ => ({ st with tBad := true }, ["bad-op"])
+  | ["mon-c06"] =>
+    if st.tBad then (st, ["bad-op"])
+    else (st, verdict (Afkak.Monitor.C06.firstBad Afkak.Monitor.C06.MSt.init 0 (fixTr st.tr)))
+  | ["mon-c10"] =>
+    if st.tBad then (st, ["bad-op"])
+    else (st, verdict (Afkak.Monitor.C10.firstBad (BC.policyOf st.tPolicy) (Afkak.Monitor.C10.MSt.init st.tHost st.tPort) 0 (fixTr st.tr)))
+  | ["mon-model-c06"] => (st, verdict (Afkak.Monitor.C06.firstBad Afkak.Monitor.C06.MSt.init 0 st.bcTr.reverse))
+  | ["mon-model-c10"] =>
+    (st, verdict (Afkak.Monitor.C10.firstBad (BC.policyOf st.policy) (Afkak.Monitor.C10.MSt.init st.host st.port) 0 st.bcTr.reverse))
+  | ["bt-new"] => ({ st with btr := [], tBad := false }, ["ok"])
+  | "bt-ev" :: ws => match BS.parseEv ws with
+    | some e => ({ st with btr := (e, []) :: st.btr }, [])
+    | none => ({ st with tBad := true }, ["bad-op"])
+  | "bt-ob" :: ws => match BS.parseOb ws, st.btr with
+    | some o, (e, os) :: rest => ({ st with btr := (e, o :: os) :: rest }, [])
+    | _, _ => ({ st with tBad := true }, ["bad-op"])
+  | ["mon-boot", strict] => match BC.parseBool strict with
+    | some b => if st.tBad then (st, ["bad-op"]) else (st, verdict (bootFirstBad b Afkak.Monitor.C06.BSt.init 0 (fixTr st.btr)))
+    | none => (st, ["bad-op"])
+  | ["mon-model-boot", strict] => match BC.parseBool strict with
+    | some b => (st, verdict (bootFirstBad b Afkak.Monitor.C06.BSt.init 0 st.bsTr.reverse))
+    | none => (st, ["bad-op"])
+  | ws => match BC.parseEv ws with
+    | some e =>
+      let r := Afkak.BrokerClient.step ⟨BC.policyOf st.policy⟩ st.bc e
+      ({ st with bc := r.1, bcTr := (e, r.2) :: st.bcTr }, r.2.map BC.showOb)
+    | none => (st, ["bad-op"])
 
 end Driver.BrokerClient
 
 def main : IO UInt32 := do
-  Driver.loop (← IO.getStdin) (← IO.getStdout) () Driver.BrokerClient.step
+  Driver.loop (← IO.getStdin) (← IO.getStdout) ({} : Driver.BrokerClient.DSt) Driver.BrokerClient.step
   return 0
